@@ -63,8 +63,38 @@ def run(ctx):
     sort_keys(ctx)
     lookup(ctx)
     attr(ctx)
+    file_order(ctx)
     from rules import lib_fibexflow
     lib_fibexflow.check(ctx)
+
+
+ORDER_OPS = re.compile(r"::(sort|sort_by|sort_by_key|sort_unstable|sort_unstable_by|sort_unstable_by_key|sort_by_cached_key|dedup|dedup_by|dedup_by_key|reverse|retain|retain_mut|swap|swap_remove|rotate_left|rotate_right|rev|truncate|drain|pop|remove|split_off)$")
+
+
+def file_order(ctx):
+    """ORDER-F: "the first definition wins" is relative to the order in which the caller lists the files: between the
+    configuration and the loop over the files nothing reorders, drops or deduplicates the list (type-based: no
+    reordering / removing operation on a sequence of paths anywhere in the module)."""
+    F, R = ctx.facts, ctx.report
+    n = 0
+    for path, body in fibex_bodies(F):
+        for bi, blk in enumerate(body["blocks"]):
+            if blk["cleanup"]:
+                continue
+            f = cfg.callee_of(blk["term"])
+            if not f:
+                continue
+            tgt = cfg.fn_target(f)
+            tys = [F.ty_s(a) for a in f.get("args", []) if isinstance(a, int)]
+            if f.get("self_ty") is not None:
+                tys.append(F.ty_s(f["self_ty"]))
+            if not any("PathBuf" in t or t == "std::path::Path" for t in tys):
+                continue
+            n += 1
+            if ORDER_OPS.search(re.sub(r"::<.*?>", "", tgt)) or ORDER_OPS.search(re.sub(r"::<.*?>", "", f["path"])):
+                fl, ln = loc_of(blk)
+                R.violation("ORDER-F", "%s|%s" % (path, re.sub(r"::<.*?>", "", f["path"]).split("::")[-1]), "%s applies %s to the list of FIBEX files: the files are no longer read in the order the caller gave, so which definition of a duplicated id is \"first\" changes" % (path, f["path"]), function=path, file=fl, line=ln)
+    R.instance("ORDER-F", "%d operation(s) on the file list, none reorders or drops entries" % n)
 
 
 def typeinfo_row(eng, F, v):
